@@ -51,6 +51,16 @@ IGet(S, s, k) ==
 
 ISet(S, s, k, v) == IF s = 0 THEN [S EXCEPT !.base[k] = Some(v)]
                     ELSE SetCacheValue(S, s, k, Some(v), FALSE, TRUE)
+\* func (store *Store) Set(key, value) on a wrapper, with an optional key and an optional value, in the
+\* order of the statements: lock; AssertValidKey(key); AssertValidValue(value); setCacheValue(...).
+\* Get / Delete: lock; AssertValidKey(key); ...   Has(key) = Get(key) != nil.
+\* A failed assertion panics (the deferred Unlock runs) before the parent is read or the cache
+\* written: the store state is the one before the call.
+ISetChecked(S, s, optk, optv) ==
+  IF optk = None THEN H("SetNilKey", [S |-> S, r |-> "panic"])
+  ELSE IF optv = None THEN H("SetNilValue", [S |-> S, r |-> "panic"])
+  ELSE [S |-> SetCacheValue(S, s, optk[1], optv, FALSE, TRUE), r |-> "ok"]
+IKeyChecked(S, s, optk) == IF optk = None THEN H("NilKey", [S |-> S, r |-> "panic"]) ELSE [S |-> S, r |-> "ok"]
 IDelete(S, s, k) == IF s = 0 THEN [S EXCEPT !.base[k] = None]
                     ELSE SetCacheValue(S, s, k, None, TRUE, TRUE)
 
@@ -222,6 +232,10 @@ IIterNextA(i) ==
 IIterCloseA(i) == Commit(St) /\ ires' = "ok" /\ KeepIts
 IWriteA(w) == Commit(IWrite(St, w)) /\ ires' = "ok" /\ KeepIts
 ICacheWrapA(s) == Commit(St) /\ ires' = res' /\ KeepIts
+\* refused calls on a wrapper (nil value, nil key)
+ISetNilA(s, k) == LET r == ISetChecked(St, s, Some(k), None) IN Commit(r.S) /\ ires' = r.r /\ KeepIts
+ISetNoKeyA(s, v) == LET r == ISetChecked(St, s, None, Some(v)) IN Commit(r.S) /\ ires' = r.r /\ KeepIts
+INoKeyA(s) == LET r == IKeyChecked(St, s, None) IN Commit(r.S) /\ ires' = r.r /\ KeepIts
 IDiscardA(w) == Commit(St) /\ ires' = "ok" /\ KeepIts
 
 IInit ==
@@ -246,6 +260,10 @@ DoIterClose(i) == IterClose(i) /\ act' = Lbl("IterClose", its[i].w, <<>>, "", No
 DoWrite(w) == Write(w) /\ act' = Lbl("Write", w, <<>>, "", None, None, TRUE, 0) /\ IWriteA(w)
 DoDiscard(w) == Discard(w) /\ act' = Lbl("Discard", w, <<>>, "", None, None, TRUE, 0) /\ IDiscardA(w)
 DoCacheWrap(s) == CacheWrap(s) /\ act' = Lbl("CacheWrap", s, <<>>, "", None, None, TRUE, 0) /\ ICacheWrapA(s)
+DoSetNil(s, k) == Refused(s) /\ act' = Lbl("SetNil", s, k, "", None, None, TRUE, 0) /\ ISetNilA(s, k)
+DoSetNoKey(s, v) == Refused(s) /\ act' = Lbl("SetNoKey", s, <<>>, v, None, None, TRUE, 0) /\ ISetNoKeyA(s, v)
+DoNoKey(o, s) == Refused(s) /\ act' = Lbl(o, s, <<>>, "", None, None, TRUE, 0) /\ INoKeyA(s)
+DoRefusedKey(s) == (\E o \in {"GetNoKey", "HasNoKey", "DeleteNoKey"} : DoNoKey(o, s)) \/ (\E v \in SetVals(s) : DoSetNoKey(s, v))
 
 INext ==
   \/ \E s \in Stores, k \in Keys :
@@ -258,6 +276,7 @@ INext ==
   \/ \E i \in 1..MaxIt : DoIterNext(i) \/ DoIterClose(i)
   \/ \E w \in W : DoWrite(w) \/ DoDiscard(w)
   \/ \E s \in Stores : DoCacheWrap(s)
+  \/ \E s \in W : (\E k \in Keys : DoSetNil(s, k)) \/ DoRefusedKey(s)
 
 \* ---- simulation: the same actions under a weighted random choice ------------------------------------
 \* TLC's simulator picks uniformly among all successors, which lets the many range choices of the
@@ -265,12 +284,13 @@ INext ==
 \* operation class first (RandomElement), prefers mutations on the innermost wrappers (a mutation
 \* further down drops the used wrappers above it, see Gone) and offers one random range per step.
 SimClasses == <<"read", "read", "mut", "mut", "mut", "mutany", "all", "all", "open", "open", "open",
-                "next", "next", "next", "next", "close", "write", "wrap", "wrap", "discard">>
+                "next", "next", "next", "next", "close", "write", "wrap", "wrap", "discard",
+                "refuse", "refuse", "refusekey">>
 ClsEnabled(c) ==
   CASE c = "next" -> \E i \in 1..MaxIt : its[i].w # -1 /\ its[i].rest # <<>>
     [] c = "close" -> \E i \in 1..MaxIt : its[i].w # -1
     [] c = "open" -> FreeIt # {} /\ \E w \in W : par[w] # -1
-    [] c \in {"write", "discard"} -> \E w \in W : par[w] # -1
+    [] c \in {"write", "discard", "refuse", "refusekey"} -> \E w \in W : par[w] # -1
     [] c = "wrap" -> FreeW # {} /\ \E s \in Stores : Exists(s) /\ Depth(s) < MaxDepth
     [] OTHER -> TRUE
 Leaf(s) == Exists(s) /\ Desc(s) = {}
@@ -290,6 +310,8 @@ SNext ==
     \/ c = "write" /\ \E w \in W : DoWrite(w)
     \/ c = "discard" /\ \E w \in W : Leaf(w) /\ DoDiscard(w)
     \/ c = "wrap" /\ \E s \in Stores : DoCacheWrap(s)
+    \/ c = "refuse" /\ \E s \in W, k \in Keys : DoSetNil(s, k)
+    \/ c = "refusekey" /\ \E s \in W : DoRefusedKey(s)
 
 ISpec == IInit /\ [][INext]_implvars
 
@@ -364,8 +386,15 @@ Act_ImplDiscardNoEffect ==
      /\ ibase' = ibase
      /\ \A s \in W : par'[s] # -1 => (cache'[s] = cache[s] /\ IViewP(s) = IView(s))
 
+\* a refused call (nil value, nil key) reports the panic and leaves the implementation state alone
+Act_ImplRefusedNoEffect ==
+  act'.op \in RefusedOps =>
+     /\ ires' = "panic"
+     /\ UNCHANGED <<ibase, cache, uns, srt, iits>>
+
 IProp == [][Act_ImplUnchangedUntilWrite /\ Act_ImplWriteAppliesView /\ Act_ImplDiscardNoEffect
             /\ Act_UnchangedUntilWrite /\ Act_WriteAppliesView /\ Act_DiscardNoEffect
+            /\ Act_RefusedNoEffect /\ Act_ImplRefusedNoEffect
             /\ Res_Refines' /\ Inv_ImplReadsAreView' /\ Inv_IterationIsView' /\ Inv_ReadsAreView']_<<implvars, hist>>
 
 IViewVars == <<base, par, ov, used, its, ibase, cache, uns, srt, iits>>
